@@ -231,7 +231,7 @@ def parseVal (E : RegexEngine) (ic : Bool) (e : Expr) (f : Str) (misc : Option M
     match parseMembers E ic f misc unmatched s { cast := misc == some .str } with
     | .error err => .error err
     | .ok st => shapeSeq e misc st (batchMembers st f).1 (batchMembers st f).2
-  | .tagged => .error .parseInvalidIdent
+  | .tagged _ => .error .parseInvalidIdent
 
 /-- The `for value in s` loop of the sequence branch (parser.rs:1135-1381). -/
 def parseMembers (E : RegexEngine) (ic : Bool) (f : Str) (misc : Option ModSym) (lhs : Expr) :
